@@ -15,6 +15,7 @@ import (
 	"strings"
 	"sync"
 	"sync/atomic"
+	"syscall"
 	"time"
 	"unsafe"
 
@@ -2260,6 +2261,12 @@ func (db *DB) CommitJournal(ctx context.Context, mode JournalMode) (err error) {
 
 // Drop writes a zero "commit" value to indicate that the database has been deleted.
 func (db *DB) Drop(ctx context.Context) (err error) {
+	// While another node holds this database's halt lock it is the only
+	// writer: a local drop is a local transaction and has to wait like one.
+	if curr := db.haltLockAndGuard.Load().(*haltLockAndGuard); curr != nil {
+		return fmt.Errorf("cannot drop database %q: halt lock held by a remote node: %w", db.name, syscall.EBUSY)
+	}
+
 	var msg string
 	var commit uint32
 	var txPageCount int
